@@ -565,6 +565,13 @@ func (q *TaskQueue) waitForTask(sleepDelay time.Duration) task.Task {
 			// Queue is stopped.
 			return nil
 		case <-checkTicker.C:
+			// A stop request can be ready together with the tick and select picks at random:
+			// check the context again, do not start a task after the queue is stopped.
+			select {
+			case <-q.ctx.Done():
+				return nil
+			default:
+			}
 			verifsched.Point("queue.wait.tick", q.Name)
 			// Check and update waitUntil.
 			elapsed := time.Since(waitBegin)
